@@ -1,3 +1,4 @@
 HARNESSES = [
     dict(name='chk'),
+    dict(name='num'),
 ]
